@@ -181,6 +181,8 @@ def run_mx_case(case):
 
     def creator(address):
         connects.append(address)
+        # what socket.create_connection() does first with a host name (it raises UnicodeError for an empty or over-long label)
+        address[0].encode('idna')
         return StagePeer({})
 
     relay = MxSmtpRelay(socket_creator=creator, context=StubClientContext(), ehlo_as='relay.example')
@@ -208,7 +210,10 @@ def run_mx_case(case):
     else:
         domain = rcpt.rsplit('@', 1)[1].lower()
         mx = answers.get('MX', 'notfound')
-        if isinstance(mx, list) and mx:
+        if isinstance(mx, list) and mx and _badhost(sorted(mx)[case['attempts'] % len(mx)][1]):
+            # a null MX (RFC 7505) or an exchange name no connection can be made to: a failure of either class
+            want, dest = 'fail', None
+        elif isinstance(mx, list) and mx:
             recs = sorted(mx)
             pr = recs[case['attempts'] % len(recs)][0]
             dest = set(h for p, h in recs if p == pr) if [p for p, _ in recs].count(pr) > 1 else {recs[case['attempts'] % len(recs)][1]}
@@ -224,7 +229,10 @@ def run_mx_case(case):
             else:
                 want, dest = 'perm', None
     out = []
-    if v != want:
+    if want == 'fail':
+        if v == 'ok':
+            out.append(('C11:mx-decision', '%s: reported delivered' % desc))
+    elif v != want:
         out.append(('C11:mx-decision', '%s: reported %s, expected %s' % (desc, v, want)))
     elif want == 'ok':
         if len(connects) != 1 or connects[0][0] not in dest or connects[0][1] != 25:
@@ -232,7 +240,15 @@ def run_mx_case(case):
     return out, case['attempts'] > 0 or want != 'ok'
 
 
+def _badhost(h):
+    return h == '.' or any(not (0 < len(l) < 64) for l in h.rstrip('.').split('.'))
+
+
 def mx_table():
+    for host in ('.', 'mx..example.net', 'x' * 70 + '.example.net'):
+        for attempts in (0, 1):
+            yield {'rcpt': 'user@example.com', 'attempts': attempts, 'answers': {'MX': [[0, host]]}}
+            yield {'rcpt': 'user@example.com', 'attempts': attempts, 'answers': {'MX': [[0, host], [10, 'mx2.example.net']]}}
     mxsets = [[(10, 'mx1.example.net'), (20, 'mx2.example.net'), (30, 'mx3.example.net')],
               [(20, 'b.example.net'), (5, 'a.example.net')],
               [(10, 'only.example.net')]]
